@@ -72,7 +72,12 @@ class HedgeLoss(Module, ABC):
             torch.Tensor
         """
         pl = input - target
-        return bisect(self, self(pl), pl.min(), pl.max())
+
+        def fn(cash: Tensor) -> Tensor:
+            # The loss of the constant profit-loss ``cash``, column by column
+            return self(cash.expand_as(pl))
+
+        return bisect(fn, self(pl), pl.amin(dim=0), pl.amax(dim=0))
 
 
 class EntropicRiskMeasure(HedgeLoss):
